@@ -12,9 +12,9 @@
     * for a panic value, inside the deferred function of `executeItem` (`er.String()`,
       `handleBatchItemError`): a panic in a deferred function is not recovered by that function's own
       `recover()`, it propagates to the caller.
-  Nothing above recovers (`handleRequest`, `Server.handleRequest`, `handleConn`): the goroutine of the
-  connection dies and with it the process. `Params.guarded` is the proposed repair: a recover around
-  the whole of `executeItemWithMiddleware`.
+  Before 06bba78 nothing above recovered (`handleRequest`, `Server.handleRequest`, `handleConn`): the
+  goroutine of the connection died and with it the process. `Params.guarded` is the repair (06bba78):
+  a deferred recover around the whole of `executeItemWithMiddleware`, which fails the item.
 
   The batch model (`Kmip.Batch`, C09) has outcomes `success | typed error | plain error | panicTyped |
   panicOther`: all of them are BENIGN in the sense of this file (`Render.fine`).
@@ -39,12 +39,14 @@ inductive Result where
   deriving DecidableEq, Repr
 
 structure Params where
-  /-- `executeItemWithMiddleware` has its own deferred recover (NOT the current code). -/
+  /-- `executeItemWithMiddleware` has its own deferred recover (since 06bba78). -/
   guarded : Bool
   deriving DecidableEq, Repr
 
-def current : Params := { guarded := false }
-def repaired : Params := { guarded := true }
+/-- the code at /repo HEAD. -/
+def current : Params := { guarded := true }
+/-- before 06bba78. -/
+def beforeGuard : Params := { guarded := false }
 
 /-- a panic raised while the outcome is rendered. -/
 def escaped (p : Params) : Result := bif p.guarded then .item true else .processDies
